@@ -107,11 +107,37 @@ def _gen_sockets(rng):
             continue
         names.append(cand)
     socks = []
+    sup = _supported()
     for nm in names:
-        unix = rng.random() < 0.4
+        unix = rng.random() < 0.45
         reuse = (not unix) and rng.random() < 0.25
-        socks.append({"name": nm, "unix": unix, "reuseport": reuse})
+        typ = rng.choice(["stream", "stream", "stream", "seqpacket", "dgram"])
+        if (unix, typ) not in sup:
+            typ = "stream"
+        socks.append({"name": nm, "unix": unix, "reuseport": reuse, "type": typ,
+                      "replace": unix and rng.random() < 0.2})
     return socks
+
+
+_SUP = []
+_TYPES = {"stream": socket.SOCK_STREAM, "seqpacket": socket.SOCK_SEQPACKET, "dgram": socket.SOCK_DGRAM}
+_TYPE_NAME = {"stream": "SOCK_STREAM", "seqpacket": "SOCK_SEQPACKET", "dgram": "SOCK_DGRAM"}
+_TYPE_TOK = {"stream": "s", "seqpacket": "q", "dgram": "d"}
+
+
+def _supported():
+    """the (unix?, type) combinations socket() accepts on this kernel (the others are not generated)"""
+    if not _SUP:
+        ok = set()
+        for unix in (False, True):
+            for name, t in _TYPES.items():
+                try:
+                    socket.socket(socket.AF_UNIX if unix else socket.AF_INET, t).close()
+                    ok.add((unix, name))
+                except OSError:
+                    pass
+        _SUP.append(ok)
+    return _SUP[0]
 
 
 def _gen_text(rng, socks, nrefs, words):
@@ -155,8 +181,15 @@ def _gen_watcher(rng, socks, force_refs=False):
         args = " ".join(rest)
     else:
         args = rest
+    stdin = None
+    r = rng.random()
+    if r < 0.25:
+        stdin = rng.choice(socks)["name"]
+    elif r < 0.29:
+        stdin = rng.choice(_MISSING + [_rcase(rng, rng.choice(socks)["name"])])
     return {"use_sockets": rng.random() < 0.6, "cmd": cmd, "args": args, "np": rng.choice([0, 1, 1, 2, 2, 3]),
-            "pipe_out": rng.random() < 0.6, "pipe_err": rng.random() < 0.5, "max_retry": rng.choice([1, 2, 3])}
+            "pipe_out": rng.random() < 0.6, "pipe_err": rng.random() < 0.5, "max_retry": rng.choice([1, 2, 3]),
+            "stdin": stdin}
 
 
 def _gen_ops(rng, nw, n):
@@ -205,6 +238,10 @@ def gen_hist(rng):
     ws = [_gen_watcher(rng, socks, force_refs=(i == 0)) for i in range(nw)]
     if not any(w["use_sockets"] for w in ws):
         ws[0]["use_sockets"] = True
+    if rng.random() < 0.3:              # inetd style: stdin_socket without use_sockets
+        ws[-1]["stdin"] = rng.choice(socks)["name"]
+        if len(ws) > 1:
+            ws[-1]["use_sockets"] = False
     return {"kind": "hist", "sockets": socks, "watchers": ws, "ops": _gen_ops(rng, nw, rng.randint(5, 40))}
 
 
@@ -219,6 +256,8 @@ def gen_sim(rng):
         w["cmd"] = w["cmd"].replace(" 'unclosed", "")
         w["np"] = rng.choice([1, 1, 2, 3])
         w["pipe_out"] = w["pipe_err"] = False
+        if w["stdin"] is not None and w["stdin"] not in [s["name"] for s in socks]:
+            w["stdin"] = None
         ws.append(w)
     ws[0]["use_sockets"] = True
     acts = []
@@ -253,13 +292,18 @@ def gen_live(rng):
         names = [rng.choice(socks)["name"] for _ in range(rng.randint(1, 2))]
         ws.append({"use_sockets": i == 0, "names": [_rcase(rng, n) if rng.random() < 0.5 else n for n in names],
                    "pipe_out": rng.random() < 0.5, "pipe_err": rng.random() < 0.5})
+    # inetd style: stdin_socket without use_sockets; and a stdin_socket that does not exist (Popen must raise)
+    ws.append({"use_sockets": False, "names": [], "pipe_out": rng.random() < 0.5, "pipe_err": False,
+               "stdin": rng.choice(socks)["name"]})
+    ws.append({"use_sockets": rng.random() < 0.5, "names": [], "pipe_out": False, "pipe_err": False,
+               "stdin": "nosuch"})
     ops = [["I"]]
     spawns = 0
     nspawn = rng.randint(3, 5)          # 4 live cases per thorough run: at most 20 real forks
     while spawns < nspawn:
         r = rng.random()
         if r < 0.5:
-            ops.append(["S", rng.randrange(2)]); spawns += 1
+            ops.append(["S", rng.choice([0, 1, 2, 2, 3])]); spawns += 1
         elif r < 0.7:
             ops.append(["O", int(rng.random() < 0.5)])
         elif r < 0.85:
@@ -312,14 +356,15 @@ class _Env(object):
         """config dicts for CircusSocket.load_from_config (before the filler: reserving a port opens a socket)"""
         out = []
         for i, s in enumerate(self.case["sockets"]):
-            cfg = {"name": s["name"], "so_reuseport": bool(s["reuseport"])}
+            cfg = {"name": s["name"], "so_reuseport": bool(s["reuseport"]),
+                   "type": _TYPE_NAME[s.get("type", "stream")], "replace": bool(s.get("replace"))}
             if s["unix"]:
                 cfg["path"] = os.path.join(self.dir, "s%d.sock" % i)
                 self.addr_of[("unix", cfg["path"])] = i
             else:
                 cfg["host"] = "127.0.0.1"
                 if s["reuseport"]:
-                    r = socket.socket(socket.AF_INET, socket.SOCK_STREAM)
+                    r = socket.socket(socket.AF_INET, _TYPES[s.get("type", "stream")])
                     r.setsockopt(socket.SOL_SOCKET, socket.SO_REUSEPORT, 1)
                     r.setsockopt(socket.SOL_SOCKET, socket.SO_REUSEADDR, 1)
                     r.bind(("127.0.0.1", 0))
@@ -373,6 +418,15 @@ class _Env(object):
                 continue
             if isinstance(nm, tuple) and nm[1] != 0:
                 self.addr_of[("inet", nm[1])] = self.addr_of.get(("inet", nm[1]), i)
+
+    def files(self):
+        """address identities of the unix-socket files that exist in the scratch directory"""
+        out = []
+        for fn in os.listdir(self.dir):
+            m = re.match(r"^s(\d+)\.sock$", fn)
+            if m:
+                out.append(int(m.group(1)))
+        return sorted(out)
 
     def open_other(self, inh):
         self.nfile += 1
@@ -454,11 +508,68 @@ class _Env(object):
         shutil.rmtree(self.dir, ignore_errors=True)
 
 
-def _inherit(photo, close_fds):
-    """PEP 446: the daemon descriptors above 2 a child keeps"""
+def _inherit(photo, close_fds, pass_fds=()):
+    """PEP 446: the daemon descriptors above 2 a child keeps (`pass_fds` are kept, and made inheritable, by
+    subprocess even with close_fds=True)"""
     if close_fds:
-        return []
-    return [[e[0], e[1], e[2], e[4], e[5]] for e in photo if e[3]]
+        return [[e[0], e[1], e[2], e[4], e[5]] for e in photo if e[0] in set(pass_fds or ())]
+    return [[e[0], e[1], e[2], e[4], e[5]] for e in photo if e[3] or e[0] in set(pass_fds or ())]
+
+
+class _PreexecOs(object):
+    """stands in for the `os` module of circus.process while the harness runs `preexec_fn` in the daemon process
+    to learn what it would do in the child: `setsid` and the `dup2`s are recorded instead of performed, the
+    /dev/null of `_null_streams` is a token"""
+    NULL = -7
+
+    def __init__(self):
+        self.dup2s = []
+
+    def __getattr__(self, name):
+        return getattr(os, name)
+
+    def setsid(self):
+        pass
+
+    def open(self, path, flags, mode=0o777):
+        if path == os.devnull:
+            return self.NULL
+        return os.open(path, flags, mode)
+
+    def close(self, fd):
+        if fd != self.NULL:
+            os.close(fd)
+
+    def dup2(self, src, dst, inheritable=True):
+        if src != self.NULL:
+            os.fstat(src)            # EBADF like the real call (fileno() of a closed socket object is -1)
+        self.dup2s.append((src, dst))
+        return dst
+
+
+def _run_preexec(fn):
+    """-> (source of the child's descriptor 0 or None, exception or None)"""
+    import circus.process as cp
+    if fn is None:
+        return None, None
+    proxy = _PreexecOs()
+    saved = cp.os
+    cp.os = proxy
+    try:
+        err = None
+        try:
+            fn()
+        except Exception as e:  # noqa: in the child any exception makes Popen raise SubprocessError
+            err = "%s: %s" % (type(e).__name__, e)      # only text: the exception would keep the frames alive
+        if err is not None:
+            return None, err
+    finally:
+        cp.os = saved
+    src = None
+    for a, b in proxy.dup2s:
+        if b == 0:
+            src = a
+    return (None if src in (None, proxy.NULL) else src), None
 
 
 class _FakeLoop(object):
@@ -483,16 +594,16 @@ def _noop(*a, **k):
     return None
 
 
-def _make_recorder(env, calls):
+def _make_recorder(env, calls, calls_failed=None):
     import psutil
+    if calls_failed is None:
+        calls_failed = []
 
     class Recorder(object):
         """stands in for psutil.Popen in circus.process"""
         next_pid = [0]
 
         def __init__(self, args, **kw):
-            Recorder.next_pid[0] += 1
-            self.pid = Recorder.next_pid[0]
             self.returncode = None
             self.stdout = None
             self.stderr = None
@@ -508,8 +619,26 @@ def _make_recorder(env, calls):
                 self.stderr = os.fdopen(r, "rb", 0)
                 env.objects.append(self.stderr)
                 ends.append(w)
+            photo = env.photo()
+            src0, exc = _run_preexec(kw.get("preexec_fn"))
+            if exc is not None:
+                # the child died in preexec_fn: Popen closes its pipes and raises
+                import subprocess
+                for ch in (self.stdout, self.stderr):
+                    if ch is not None:
+                        ch.close()
+                for w in ends:
+                    os.close(w)
+                calls_failed.append(exc)
+                raise subprocess.SubprocessError("Exception occurred in preexec_fn.")
+            Recorder.next_pid[0] += 1
+            self.pid = Recorder.next_pid[0]
+            fd0 = None
+            if src0 is not None:
+                e = [x for x in photo if x[0] == src0]
+                fd0 = [e[0][1], e[0][2], e[0][4], e[0][5]] if e else ["?%d" % src0, "?", False, None]
             calls.append({"argv": list(args), "close_fds": kw.get("close_fds"), "shell": kw.get("shell"),
-                          "photo": env.photo(), "pid": self.pid,
+                          "photo": photo, "pid": self.pid, "fd0": fd0, "pass_fds": list(kw.get("pass_fds") or ()),
                           "kw": sorted(k for k in kw if k not in ("preexec_fn",))})
             for w in ends:
                 os.close(w)
@@ -542,7 +671,7 @@ def _mk_watcher(i, w, sockets, loop):
     import circus.watcher as cw
     stream = {"stream": _noop}
     wt = cw.Watcher("w%d" % i, w["cmd"], args=w["args"], numprocesses=w["np"], working_dir="/",
-                    use_sockets=w["use_sockets"], copy_env=False, copy_path=False,
+                    use_sockets=w["use_sockets"], copy_env=False, copy_path=False, stdin_socket=w.get("stdin"),
                     stdout_stream=dict(stream) if w["pipe_out"] else None,
                     stderr_stream=dict(stream) if w["pipe_err"] else None,
                     max_retry=w["max_retry"], loop=loop)
@@ -554,8 +683,8 @@ def _mk_watcher(i, w, sockets, loop):
 
 def _rec_obs(call, wi, fds):
     return {"w": wi, "close_fds": call["close_fds"], "argv": call["argv"],
-            "inherited": _inherit(call["photo"], call["close_fds"]), "photo": call["photo"],
-            "sockets_fds": fds}
+            "inherited": _inherit(call["photo"], call["close_fds"], call.get("pass_fds")), "photo": call["photo"],
+            "sockets_fds": fds, "fd0": call.get("fd0")}
 
 
 def _impl_hist(case):
@@ -593,14 +722,16 @@ def _impl_hist(case):
                         if ch is not None and not ch.closed:
                             fds.append(ch.fileno())
                 procs.append([pid, wi, (p.wid if p is not None else None), fds])
-            return {"recs": recs, "table": table, "socks": sk, "procs": procs, "phase": phase, "res": res}
+            return {"recs": recs, "table": table, "socks": sk, "procs": procs, "phase": phase, "res": res,
+                    "files": env.files()}
 
         def spawn(wi, wis):
             """True / False as spawn_process answers, None when it raised (RuntimeError of _nextwid)"""
+            import subprocess
             n = len(calls)
             try:
                 r = ws[wi].spawn_process()
-            except RuntimeError:
+            except (RuntimeError, subprocess.SubprocessError):
                 r = None
             for c in calls[n:]:
                 wis.append(wi)
@@ -704,6 +835,7 @@ def _impl_sim(case):
                 c = w["c07"]
                 return W.Watcher(w["name"], c["cmd"], args=c["args"], numprocesses=c["np"], working_dir="/",
                                  use_sockets=c["use_sockets"], copy_env=False, copy_path=False,
+                                 stdin_socket=c.get("stdin"),
                                  warmup_delay=0, graceful_timeout=0.3, max_retry=c["max_retry"], loop=self_.loop)
 
         sc = {"watchers": [{"name": "w%d" % i, "c07": w} for i, w in enumerate(case["watchers"])], "ops": []}
@@ -721,13 +853,21 @@ def _impl_sim(case):
 
             def popen(args, **kw):
                 ph = [e for e in env.photo() if e[0] not in base_photo]
+                src0, exc = _run_preexec(kw.get("preexec_fn"))
+                if exc is not None:
+                    import subprocess
+                    raise subprocess.SubprocessError("Exception occurred in preexec_fn.")
+                fd0 = None
+                if src0 is not None:
+                    e0 = [x for x in ph if x[0] == src0]
+                    fd0 = [e0[0][1], e0[0][2], e0[0][4], e0[0][5]] if e0 else ["?%d" % src0, "?", False, None]
                 p = inner(args, **kw)
                 name = None
                 for w in sim.arb.watchers:
                     if w.cmd is not None and getattr(w, "_c07_spawning", False):
                         name = w.name
                 calls.append({"argv": list(args), "close_fds": kw.get("close_fds"), "photo": ph, "pid": p.pid,
-                              "name": name})
+                              "name": name, "fd0": fd0, "pass_fds": list(kw.get("pass_fds") or ())})
                 return p
             cp.Popen = popen
             import circus.watcher as W
@@ -835,8 +975,10 @@ for fd in range(3, 260):
         finally:
             s.detach()
     out.append(e)
+st0 = os.fstat(0)
+fd0 = {"sock": stat.S_ISSOCK(st0.st_mode), "ino": "%d:%d" % (st0.st_dev, st0.st_ino)}
 with open(sys.argv[1], "w") as fh:
-    json.dump({"argv": sys.argv[2:], "fds": out}, fh)
+    json.dump({"argv": sys.argv[2:], "fds": out, "fd0": fd0}, fh)
 """
 
 
@@ -865,7 +1007,8 @@ def _impl_live(case):
         for i, w in enumerate(case["watchers"]):
             args = [script, "@OUT@"] + ["$(circus.sockets.%s)" % n for n in w["names"]]
             ws.append(_mk_watcher(i, {"cmd": sys.executable, "args": args, "np": 1, "use_sockets": w["use_sockets"],
-                                      "pipe_out": w["pipe_out"], "pipe_err": w["pipe_err"], "max_retry": 1},
+                                      "pipe_out": w["pipe_out"], "pipe_err": w["pipe_err"], "max_retry": 1,
+                                      "stdin": w.get("stdin")},
                                   sockets, loop))
         spawned = []
         others = []
@@ -886,6 +1029,10 @@ def _impl_live(case):
                 try:
                     r = w.spawn_process()
                 except Exception as e:  # noqa
+                    if case["watchers"][op[1]].get("stdin") == "nosuch":
+                        reports.append({"w": op[1], "raised": type(e).__name__, "open_after": env.photo(),
+                                        "photo": photo})
+                        continue
                     return {"skipped": "spawn: %s: %s" % (type(e).__name__, e)}
                 new = [p for pid, p in w.processes.items() if pid not in before]
                 if r is False or not new:
@@ -979,10 +1126,13 @@ def _canon_steps(steps):
     for st in steps:
         recs = []
         for r in st["recs"]:
+            f0 = r.get("fd0")
             recs.append({"w": r["w"], "close_fds": r["close_fds"], "argv": r["argv"],
-                         "inherited": [[e[0], rn(e[1]), e[2], e[3], e[4]] for e in r["inherited"]]})
+                         "inherited": [[e[0], rn(e[1]), e[2], e[3], e[4]] for e in r["inherited"]],
+                         "fd0": None if f0 is None else [rn(f0[0]), f0[1], f0[2], f0[3]]})
         out.append({"recs": recs, "table": [[e[0], rn(e[1]), e[2], e[3], e[4], e[5]] for e in st["table"]],
-                    "socks": st["socks"], "procs": st.get("procs"), "phase": st.get("phase"), "res": st.get("res")})
+                    "socks": st["socks"], "procs": st.get("procs"), "phase": st.get("phase"), "res": st.get("res"),
+                    "files": sorted(st.get("files") or [])})
     return out
 
 
@@ -1014,9 +1164,11 @@ def _sim_view(case, obs):
     for st in obs["steps"]:
         recs = []
         for r in st["recs"]:
-            inh = _inherit(r["photo"], r["close_fds"])
+            inh = _inherit(r["photo"], r["close_fds"], r.get("pass_fds"))
+            f0 = r.get("fd0")
             recs.append({"w": int(r["name"][1:]) if r.get("name") else None, "close_fds": r["close_fds"],
-                         "argv": r["argv"], "inherited": [[e[0], rn(e[1]), e[2], e[3], e[4]] for e in inh]})
+                         "argv": r["argv"], "inherited": [[e[0], rn(e[1]), e[2], e[3], e[4]] for e in inh],
+                         "fd0": None if f0 is None else [rn(f0[0]), f0[1], f0[2], f0[3]]})
         out.append({"recs": recs, "table": [[e[0], rn(e[1]), e[2], e[3], e[4], e[5]] for e in st["table"]],
                     "socks": st["socks"]})
     return out
@@ -1030,18 +1182,21 @@ def _enc_args(a):
     return ["l", str(len(a))] + [enc_cps(x) for x in a]
 
 
-def _addr_ids(case):
-    return list(range(len(case["sockets"])))
+def _enc_spec(s, default_addr):
+    return [enc_cps(s["name"]), "1" if s["reuseport"] else "0", str(s.get("addr", default_addr)),
+            _TYPE_TOK[s.get("type", "stream")], "1" if s["unix"] else "0", "1" if s.get("replace") else "0",
+            str(s.get("opts", 0))]
 
 
 def _line(case, watchers, ops, base):
     t = ["sock", "run", str(base), str(len(case["sockets"]))]
     for i, s in enumerate(case["sockets"]):
-        t += [enc_cps(s["name"]), "1" if s["reuseport"] else "0", str(i)]
+        t += _enc_spec(s, i)
     t.append(str(len(watchers)))
     for w in watchers:
         t += ["1" if w["use_sockets"] else "0", enc_cps(w["cmd"])] + _enc_args(w["args"]) + [
-            str(w["np"]), "1" if w["pipe_out"] else "0", "1" if w["pipe_err"] else "0", str(w["max_retry"])]
+            str(w["np"]), "1" if w["pipe_out"] else "0", "1" if w["pipe_err"] else "0", str(w["max_retry"]),
+            "~" if w.get("stdin") is None else enc_cps(w["stdin"])]
     t.append(str(len(ops)))
     for op in ops:
         t += [str(x) for x in op]
@@ -1121,7 +1276,11 @@ def _p_seg(seg):
         argv = [t.s() for _ in range(t.nat())]
         inh = [_p_ent(t) for _ in range(t.nat())]
         temp = [t.nat() for _ in range(t.nat())]
-        recs.append({"w": w, "close_fds": cf, "argv": argv, "sockets_fds": fds, "temp": temp,
+        fd0 = None
+        if t.next() != "~":
+            e = _p_ent(t)
+            fd0 = [e[1], e[2], e[4], e[5]]
+        recs.append({"w": w, "close_fds": cf, "argv": argv, "sockets_fds": fds, "temp": temp, "fd0": fd0,
                      "inherited": [[e[0], e[1], e[2], e[4], e[5]] for e in inh]})
     table = [_p_ent(t) for _ in range(t.nat())]
     socks = _p_fds(t)
@@ -1132,10 +1291,12 @@ def _p_seg(seg):
         wid = t.nat()
         procs.append([pid, w, wid, [t.nat() for _ in range(t.nat())]])
     phase = t.next()
+    files = sorted(t.nat() for _ in range(t.nat()))
     res = t.next()
     if t.i != len(t.t):
         raise ValueError("left over tokens")
-    return {"recs": recs, "table": table, "socks": socks, "procs": procs, "phase": phase, "res": res}
+    return {"recs": recs, "table": table, "socks": socks, "procs": procs, "phase": phase, "res": res,
+            "files": files}
 
 
 def model_parse(case, line):
@@ -1169,7 +1330,8 @@ def model_parse(case, line):
     res = []
     for st in out:
         res.append({"recs": [{"w": r["w"], "close_fds": r["close_fds"], "argv": r["argv"],
-                              "inherited": [[e[0], rn(e[1]), e[2], e[3], e[4]] for e in r["inherited"]]}
+                              "inherited": [[e[0], rn(e[1]), e[2], e[3], e[4]] for e in r["inherited"]],
+                              "fd0": None if r["fd0"] is None else [rn(r["fd0"][0])] + r["fd0"][1:]}
                              for r in st["recs"]],
                     "table": [[e[0], rn(e[1]), e[2], e[3], e[4], e[5]] for e in st["table"]],
                     "socks": st["socks"]})
@@ -1259,15 +1421,14 @@ def _refs_of(w):
 
 def _check_worker(case, w, rec, inherited, startup, fails, where):
     """one Popen call of a running daemon against C07.  startup: socket index -> [fd, ident, addr]"""
+    _check_stdin(case, w, rec, startup, fails, where)
     if not w["use_sockets"]:
-        if rec["close_fds"] is not True or inherited:
+        if inherited:
             fails.append(_fail("C07:leak-without-use_sockets",
-                               "%s: worker of a watcher without use_sockets started with close_fds=%r and would "
-                               "inherit descriptors %r" % (where, rec["close_fds"], [e[0] for e in inherited])))
+                               "%s: worker of a watcher without use_sockets (stdin_socket=%r) started with "
+                               "close_fds=%r would inherit the daemon descriptors %r"
+                               % (where, w.get("stdin"), rec["close_fds"], [e[0] for e in inherited])))
         return
-    if rec["close_fds"] is not False:
-        fails.append(_fail("C07:use_sockets-closes-fds", "%s: use_sockets worker started with close_fds=%r"
-                           % (where, rec["close_fds"])))
 
     def number_of(idx, name):
         cands = [i for i in idx if not case["sockets"][i]["reuseport"]]
@@ -1299,10 +1460,34 @@ def _check_worker(case, w, rec, inherited, startup, fails, where):
                 continue
             fd, ident, addr = startup[i]
             e = inh.get(fd)
-            if e is None or e[1] != ident or e[2] != "s" or not e[3] or e[4] != addr:
+            if e is None or e[1] != ident or e[2] != "s" or bool(e[3]) != _listens(case["sockets"][i]) or e[4] != addr:
                 fails.append(_fail("C07:child-does-not-get-the-startup-socket",
                                    "%s: descriptor %d of the child is %r, not the listening socket %r bound at "
                                    "startup" % (where, fd, e, startup[i])))
+
+
+def _listens(s):
+    return s.get("type", "stream") in ("stream", "seqpacket")
+
+
+def _check_stdin(case, w, rec, startup, fails, where):
+    """descriptor 0 of the child: the stdin_socket (the socket of exactly that name) or nothing of the daemon"""
+    if "fd0" not in rec:
+        return
+    f0 = rec["fd0"]
+    name = w.get("stdin")
+    if name is None:
+        if f0 is not None:
+            fails.append(_fail("C07:daemon-descriptor-on-stdin", "%s: no stdin_socket, descriptor 0 is %r" % (where, f0)))
+        return
+    idx = [i for i, s in enumerate(case["sockets"]) if s["name"] == name and not s["reuseport"]]
+    if not idx or idx[0] not in startup:
+        return
+    fd, ident, addr = startup[idx[0]]
+    if f0 is None or f0[0] != ident or f0[1] != "s" or f0[3] != addr:
+        fails.append(_fail("C07:stdin-socket-not-the-startup-socket",
+                           "%s: stdin_socket %r: descriptor 0 of the child is %r, the socket bound at startup is %r"
+                           % (where, name, f0, startup[idx[0]])))
 
 
 def _check_daemon(case, table, socks, startup, fails, where):
@@ -1316,7 +1501,7 @@ def _check_daemon(case, table, socks, startup, fails, where):
         if fd_of.get(s["name"]) != fd:
             fails.append(_fail("C07:descriptor-number-changed", "%s: socket %r moved from %r to %r"
                                % (where, s["name"], fd, fd_of.get(s["name"]))))
-        elif e is None or e[1] != ident or e[2] != "s" or not e[4] or e[5] != addr or not e[3]:
+        elif e is None or e[1] != ident or e[2] != "s" or bool(e[4]) != _listens(s) or e[5] != addr or not e[3]:
             fails.append(_fail("C07:managed-socket-rebound-or-closed",
                                "%s: descriptor %d of socket %r is now %r, at startup it was %r"
                                % (where, fd, s["name"], e, startup[i])))
@@ -1333,11 +1518,23 @@ def _startup(case, step):
         e = by_fd.get(fd)
         if s["reuseport"]:
             continue
-        if e is None or e[2] != "s" or not e[3] or not e[4] or e[5] != i:
+        if e is None or e[2] != "s" or not e[3] or bool(e[4]) != _listens(s) or e[5] != s.get("addr", i):
             bad.append((s["name"], fd, e))
             continue
         out[i] = [fd, e[1], e[5]]
     return out, bad
+
+
+def _check_stopped(st, fails, where, infra=()):
+    """C08, socket part: after the shutdown no managed socket is open and no unix-socket file is left"""
+    if st.get("files"):
+        fails.append(_fail("C08:unix-socket-file-left-behind",
+                           "%s: after the shutdown the socket files %r still exist" % (where, st["files"])))
+    open_socks = [e[0] for e in st["table"] if e[2] == "s" and e[0] not in infra]
+    if open_socks or any(fd is not None for _, fd in st["socks"]):
+        fails.append(_fail("C08:managed-socket-open-after-shutdown",
+                           "%s: after the shutdown the socket descriptors %r are open (dict: %r)"
+                           % (where, open_socks, st["socks"])))
 
 
 def _oracle_steps(case, steps, recs_of, fails):
@@ -1357,6 +1554,7 @@ def _oracle_steps(case, steps, recs_of, fails):
             running = False
             if ph == "x":
                 startup = None
+                _check_stopped(st, fails, "step %d" % n)
             continue
         for w, rec, inh in recs_of(st):
             _check_worker(case, w, rec, inh, startup, fails, "step %d" % n)
@@ -1385,7 +1583,8 @@ def oracle(case, obs):
             for r in st["recs"]:
                 if r.get("name") is None:
                     continue
-                out.append((case["watchers"][int(r["name"][1:])], r, _inherit(r["photo"], r["close_fds"])))
+                out.append((case["watchers"][int(r["name"][1:])], r,
+                            _inherit(r["photo"], r["close_fds"], r.get("pass_fds"))))
             return out
         _oracle_steps(case, steps, recs_of, fails)
     elif k == "live":
@@ -1393,7 +1592,24 @@ def oracle(case, obs):
             return []
         for n, rep in enumerate(obs["reports"]):
             w = case["watchers"][rep["w"]]
+            if "raised" in rep:
+                # what the recording Popen assumes about a preexec_fn that fails
+                if rep["raised"] != "SubprocessError" or rep["open_after"] != rep["photo"]:
+                    fails.append(_fail("C07:harness-preexec-rule-wrong",
+                                       "live spawn %d: missing stdin_socket: %r, descriptors %r -> %r"
+                                       % (n, rep["raised"], rep["photo"], rep["open_after"])))
+                continue
+            if w.get("stdin") == "nosuch":
+                fails.append(_fail("C07:harness-preexec-rule-wrong", "live spawn %d: no exception" % n))
+                continue
             child = {e["fd"]: e for e in rep["child"]["fds"]}
+            if w.get("stdin") is not None:
+                idx = [i for i, s in enumerate(case["sockets"]) if s["name"] == w["stdin"]]
+                f0 = rep["child"].get("fd0") or {}
+                if idx and (not f0.get("sock") or f0.get("ino") != rep["socks"][idx[0]][2]):
+                    fails.append(_fail("C07:stdin-socket-not-the-startup-socket",
+                                       "live spawn %d: descriptor 0 of the child is %r, the socket is %r"
+                                       % (n, f0, rep["socks"][idx[0]])))
             daemon = {e[0]: e for e in rep["photo"]}
             if not w["use_sockets"]:
                 inos = set(":".join(e[1][1:].split(":")[:2]) for e in rep["photo"])
